@@ -1628,6 +1628,17 @@ def c16_programs(tier, sd):
                     "world": [["q", "obj", "Chain"]],
                     "ops": [["randomize", ["q"]], ["randomize", ["q"], {"solve_fail_debug": dv}], ["cmode", ["q"], "k4", False], ["randomize", ["q"]], ["cmode", ["q"], "k4", True],
                             ["randomize", ["q"], {"solve_fail_debug": dv}], ["randomize", ["q"], {"solve_fail_debug": dv}], ["cmode", ["q"], "k2", False], ["randomize", ["q"], {"solve_fail_debug": dv}]]})
+    # a call aborted while its inline constraints are being expanded (an inline foreach refers to the element after the last one): the
+    # per-call expansions of the class constraints must not survive it -- the list grows, the next calls constrain every element
+    FE = {"name": "FE", "fields": [["l", "list", ["u", 8], 2, True, False], fld("a", ("u", 8))],
+          "blocks": [["fb", "c", [["foreach", ["l"], "i", [E(["<", ["it", "i"], lit(4)])]], ["unique", [F("l", 0), F("l", 1), a]],
+                                  ["dist", a, [[lit(1), 1], [lit(2), 1], [lit(3), 2]]]]]]}
+    bad_inl = [["foreach", ["l"], "i", [E([">", F("l", ["idx", "i", 1]), ["it", "i"]])]]]
+    out.append({"tag": "fault_expand", "desc": "randomize_with aborted during expansion (l[i+1] past the end), list grows, further calls",
+                "prog": {"enums": {}, "classes": [FE]}, "world": [["t", "obj", "FE"]],
+                "ops": [["randomize", ["t"]], ["illformed_call", ["t"], bad_inl], ["list_append", ["t", "l"], 0], ["list_append", ["t", "l"], 0], ["randomize", ["t"]],
+                        ["randomize", ["t"]], ["illformed_call", ["t"], bad_inl], ["randomize_with", ["t"], [E(["<", a, lit(3)])]], ["new", ["t2", "obj", "FE"]],
+                        ["illformed_call", ["t2"], bad_inl], ["randomize", ["t2"]]]})
     out.append({"tag": "fault_unsat", "desc": "unsatisfiable calls interleaved", "prog": pr, "world": [["p", "obj", "Probe"]],
                 "ops": [["randomize_with", ["p"], unsat], ["randomize", ["p"]], ["randomize_with", ["p"], unsat], ["list_append", ["p", "l"], 0],
                         ["randomize_with", ["p"], unsat], ["randomize", ["p"]]] + tail})
@@ -1709,6 +1720,13 @@ def c17_programs(tier, sd):
                ["randomize", ["top"]], ["vsc_randomize_with", [["top", "s1"]], [E([">", F("top", "s1", "x"), lit(255)])]], ["randomize", ["top"]]]
         out.append({"tag": "hooks", "desc": "tree s1 rand=%s s2 rand=%s list rand=%s" % (r1, r2, rl), "prog": pr,
                     "world": [["top", "obj", "Top"], ["other", "obj", "Top"]], "ops": ops})
+    # the parent's pre_randomize grows its lists: the new elements (objects with hooks of their own, scalars) belong to the tree of that call
+    for rl in (True, False):
+        Grow = {"name": "Grow", "fields": [fld("a", ("u", 8)), ["ol", "list", ["obj", "Leaf"], 1, rl, False], ["sl", "list", ["u", 8], 1, rl, False]],
+                "blocks": [["gb", "c", [["foreach", ["ol"], "i", [E(["<", ["it", "i", "p"], lit(30)])]], ["foreach", ["sl"], "i", [E([">", ["it", "i"], lit(100)])]]]]],
+                "pre_randomize": [["append", ["ol"], "Leaf"], ["append", ["sl"], 150]], "post_randomize": []}
+        out.append({"tag": "hooks_grow", "desc": "pre_randomize appends to an object list and a scalar list (lists rand=%s)" % rl, "prog": {"enums": {}, "classes": [Leaf, Grow]},
+                    "world": [["g", "obj", "Grow"]], "ops": [["randomize", ["g"]], ["randomize", ["g"]], ["randomize_with", ["g"], [E(["<", F("a"), lit(9)])]], ["vsc_randomize", [["g"]]]]})
     # seeded random histories over the tree: rand_mode switches at every level, assignments, all call kinds (also failing ones)
     for i in range(6 if tier == "quick" else 3000):
         r1, r2, rl = (rnd.random() < 0.7), (rnd.random() < 0.5), (rnd.random() < 0.6)
